@@ -1,6 +1,7 @@
 import StunVerif.Props.C02
 import StunVerif.Props.C02Causes
 import StunVerif.Props.SrcFnIter
+import StunVerif.Props.SrcFnParse
 #print axioms StunVerif.C02.parse_iff
 #print axioms StunVerif.C02.split_unique
 #print axioms StunVerif.C02.parse_faithful
@@ -19,3 +20,14 @@ import StunVerif.Props.SrcFnIter
 #print axioms StunVerif.SrcFnIter.collect_eq
 #print axioms StunVerif.SrcFnIter.src_iter
 #print axioms StunVerif.SrcFnIter.src_iter_more_fuel
+#print axioms StunVerif.SrcFnParse.ArrInv.init
+#print axioms StunVerif.SrcFnParse.len_le_three
+#print axioms StunVerif.SrcFnParse.ending_ne_zero
+#print axioms StunVerif.SrcFnParse.ArrInv.contains_eq
+#print axioms StunVerif.SrcFnParse.ArrInv.push
+#print axioms StunVerif.SrcFnParse.setLen_mod
+#print axioms StunVerif.SrcFnParse.endingTypes_eq
+#print axioms StunVerif.SrcFnParse.fp_mem
+#print axioms StunVerif.SrcFnParse.walk_agree
+#print axioms StunVerif.SrcFnParse.src_msgFromBytes
+#print axioms StunVerif.SrcFnParse.src_accepts_iff
